@@ -14,6 +14,7 @@ Flow of one run (DESIGN.md section 6, C18; notes/C18.md):
      the generated .c files and the command lines).
 """
 import hashlib
+import threading
 import json
 import os
 import random
@@ -212,6 +213,8 @@ class Toolchain:
         self.cflags = list(facts['cflags']) + ['-Werror']
         self.libdir = os.path.dirname(facts['lib_a_path'])
         self.objs = {}
+        self.weakres = {}
+        self.weaklock = threading.Lock()
 
     def obj_key(self, tu, role, opt):
         return hashlib.sha1(repr((tu, role, opt)).encode()).hexdigest()[:16]
@@ -228,7 +231,53 @@ class Toolchain:
         with open(src, 'w') as f:
             f.write(tu_text(self.facts, tu, role))
         rc, out = sh(cmd)
-        return job, dict(rc=rc, out=out, cmd=' '.join(cmd), src=src, obj=obj)
+        weak = []
+        if rc == 0:
+            # weak undefined references: the header declared the function __attribute__((weak)); such a reference does
+            # not pull the defining member out of a static archive
+            rc2, nm = sh(['nm', '-u', obj])
+            if rc2 == 0:
+                weak = sorted(set(l.split()[-1] for l in nm.splitlines() if l.split()[:1] and l.split()[0] in ('w', 'v')
+                                  and l.split()[-1].startswith(('cstl_', '__cstl_'))))
+        return job, dict(rc=rc, out=out, cmd=' '.join(cmd), src=src, obj=obj, weak=weak)
+
+    def weak_probe(self, name, tu, opt, lib):
+        """A client that uses only `name`: does linking against libcstl.<lib> give it a definition?"""
+        key = (name, opt, lib)
+        with self.weaklock:
+            return self._weak_probe(key, name, tu, opt, lib)
+
+    def _weak_probe(self, key, name, tu, opt, lib):
+        if key in self.weakres:
+            return self.weakres[key]
+        k = hashlib.sha1(repr(('weak',) + key).encode()).hexdigest()[:16]
+        src = os.path.join(self.dir, 'weak_%s.c' % k)
+        exe = os.path.join(self.dir, 'weak_%s' % k)
+        with open(src, 'w') as f:
+            f.write('/* generated by checks/c18.py: a client that uses nothing but %s */\n' % name)
+            for h in tu:
+                f.write('#include "cstl/%s"\n' % h)
+            f.write('typedef void (*c18_fn)(void);\nint main(void)\n{\n    volatile c18_fn f = (c18_fn)%s;\n'
+                    '    return f == (c18_fn)0;\n}\n' % name)
+        cmd = [self.cc] + self.cflags + VARIANTS[opt] + ['-I', self.inc, src, '-o', exe,
+                                                          '-L' + self.libdir, '-l:libcstl.%s' % lib, '-lm']
+        rc, out = sh(cmd)
+        res = None
+        if rc:
+            res = dict(cmd=' '.join(cmd), out=out, src=src)
+        else:
+            rc, out = sh([exe], env=dict(LD_BIND_NOW='1', LD_LIBRARY_PATH=self.libdir), timeout=60)
+            try:
+                os.unlink(exe)
+            except OSError:
+                pass
+            if rc:
+                res = dict(cmd=' '.join(cmd), src=src,
+                           out="weak reference to `%s' stays unresolved (null) when a client that uses only this function is "
+                               "linked against libcstl.%s: the header declares it weak, and a weak reference neither pulls the "
+                               "defining member out of the archive nor makes the shared library needed" % (name, lib))
+        self.weakres[key] = res
+        return res
 
     def link_cmd(self, cfg):
         k = hashlib.sha1(repr(cfg.ident()).encode()).hexdigest()[:16]
@@ -256,6 +305,11 @@ class Toolchain:
             pass
         if rc:
             return cfg, dict(stage='run', ok=False, out='exit status %d\n%s' % (rc, out), cmds=cmds + [run], parts=parts)
+        for p, t in zip(parts, cfg.prog):
+            for name in p.get('weak', []):
+                w = self.weak_probe(name, t, cfg.opt, cfg.lib)
+                if w is not None:
+                    return cfg, dict(stage='weak', ok=False, out=w['out'], cmds=cmds + [run, w['cmd']], parts=parts, weak=name)
         return cfg, dict(stage='done', ok=True, out='', cmds=cmds + [run], parts=parts)
 
     def run(self, cfgs):
@@ -285,6 +339,8 @@ def failure_keys(r):
         if not keys:
             m = re.search(r'(?:ld|collect2)[^\n]*:\s*(.*)', out)
             keys.append('link:' + re.sub(r'\W+', '_', (m.group(1) if m else out.strip().splitlines()[-1] if out.strip() else 'failed'))[:80])
+    elif r['stage'] == 'weak':
+        keys.append('weak-unresolved:' + r.get('weak', '?'))
     elif r['stage'] == 'compile':
         m = re.search(r'^([^\s:]+):\d+(?::\d+)?: (?:fatal )?error: (.*)$', out, flags=re.M)
         if m:
